@@ -172,6 +172,10 @@ func judge(s caseSpec, lg caseLog) (j judged) {
 
 func judgeRT(lg caseLog, add func(k, f string, a ...any), j *judged) {
 	sigs, resets := lg.Signals, lg.ResetEv
+	for _, l := range lg.Lost {
+		add("rt:not-woken:signal-already-returned", "Subscribe(%d) (stamps %d..%d) returned a channel that was still open although Signal(%d) had already returned: neither call noticed the other (lost wake-up; %d such observations in this case)", l[0], l[2], l[3], l[1], lg.N["lost_wakeup_observed"])
+		break
+	}
 	var wokenLater, immediate int
 	for _, sb := range lg.Subs {
 		t, pre, post, imm, wake, unsub, closedEnd := sb[0], sb[1], sb[2], sb[3], sb[4], sb[5], sb[6]
